@@ -60,7 +60,9 @@ def check(run, repo, world):
     _check_snap(run, world, mod, rfn)
 
     # ---- read_all ---------------------------------------------------------------
-    afn, acfg, ays, AQ = method_cfg(world, MB, "read_all")
+    afn, acfg, ays, AQ = method_cfg(world, MB, "read_all",
+                                    inline_also=("last_address",),
+                                    lift_values=True)
     nuse += check_rdisc(run, world, LOC, AQ, acfg, ays, mod)
     run.floor("R-RDISC response-use sites (memory reads)", nuse, 4)
     _check_read_all(run, world, mod, AQ, afn, acfg, ays, sel)
@@ -130,9 +132,9 @@ def _check_read_raw_order(run, mod, Q, fn, cfg, ys, sel):
            len(loops) == 1 and unparse(loops[0].ast.iter) == "cls.locations",
            "read_raw must iterate cls.locations", where(mod, fn))
     # exception classes
-    _check_raise_classes(run, None, mod, Q, cfg, {
-        "raw_value is None": "MemoryLocationNotImplemented",
-        "raw_value.error": "ResponseError"})
+    _check_answer_classes(run, mod, Q, fn, cfg, ynode, {
+        "missing": "MemoryLocationNotImplemented",
+        "garbled": "ResponseError"})
 
 
 _WORLD = {}
@@ -140,6 +142,87 @@ _WORLD = {}
 
 def world_of(run):
     return _WORLD.get("w")
+
+
+def answer_class_edges(cet):
+    """Edge transfer: cond facts of `cet`, plus the sticky flags 'missing'
+    (an answer's raw_value tested to be None) and 'garbled' (its error
+    attribute tested true)."""
+    def et(src, label, dst, state):
+        o = cet(src, label, dst, state)
+        if o is None or src.kind != "test" or label not in ("T", "F"):
+            return o
+        for f in o - state:
+            if isinstance(f, tuple) and f[0] == "cond" and f[2] is True:
+                if f[1].endswith(".raw_value is None"):
+                    o = o | {"missing"}
+                elif f[1].endswith(".raw_value.error"):
+                    o = o | {"garbled"}
+        return o
+    return et
+
+
+def _raise_classes(fn, stmt):
+    """Exception classes a `raise` statement may raise: the class called in
+    the statement, or those called in the assignments of the name raised."""
+    e = stmt.exc
+    if e is None:
+        return {"<re-raise>"}
+    if isinstance(e, ast.Call):
+        return {unparse(e.func)}
+    if isinstance(e, ast.Name):
+        out = set()
+        for n in ast.walk(fn):
+            if isinstance(n, ast.Assign) and any(
+                    isinstance(t, ast.Name) and t.id == e.id
+                    for t in n.targets):
+                v = n.value
+                if isinstance(v, ast.Constant) and v.value is None:
+                    continue
+                out.add(unparse(v.func) if isinstance(v, ast.Call)
+                        else unparse(v))
+        return out or {unparse(e)}
+    return {unparse(e)}
+
+
+def _check_answer_classes(run, mod, Q, fn, cfg, ynode, want, W=None):
+    """Once an answer has been found missing / garbled the sequence must not
+    return normally, and the `raise` it ends in names the documented class."""
+    if W is None:
+        cet = answer_class_edges(cond_edge_transfer())
+
+        def transfer(node, st):
+            return kill_conds_on_assign(node, st)
+        W = forward_worlds(cfg, transfer, cet)
+    seen = set()
+    for ws in W.IN.values():
+        for w in ws:
+            seen |= {f for f in w if f in want}
+    for flag, exc in sorted(want.items()):
+        tested = flag in seen
+        run.ob("R-RDISC", "%s#%s-answer-tested" % (Q, flag), tested,
+               "no test of an answer being %s (%s) found on any path"
+               % (flag, "raw_value is None" if flag == "missing"
+                  else "raw_value.error"), where(mod, fn))
+        if not tested:
+            continue
+        bad = W.worlds_with(cfg.exit, lambda w: flag in w)
+        run.ob("R-RDISC", "%s#%s-answer-never-returns" % (Q, flag), not bad,
+               "the sequence can return normally after an answer was found "
+               "%s (documented: %s): %s" % (
+                   flag, exc, path_str(W.trace(cfg.exit, bad[0])[-12:], 12)
+                   if bad else ""), where(mod, fn))
+        classes = set()
+        for n in cfg.reachable:
+            if n.kind == "stmt" and isinstance(n.ast, ast.Raise) and \
+                    W.worlds_with(n, lambda w: flag in w):
+                classes |= _raise_classes(fn, n.ast)
+        classes = {c.split(".")[-1] for c in classes}
+        run.ob("R-RDISC", "%s#%s->%s" % (Q, flag, exc), classes == {exc},
+               "after a %s answer the sequence raises %s; documented is %s"
+               % (flag, sorted(classes), exc), where(mod, fn),
+               sample={"rule": "R-RDISC", "answer": flag,
+                       "raises": sorted(classes)})
 
 
 def _check_raise_classes(run, world, mod, Q, cfg, want):
@@ -233,16 +316,22 @@ def _check_snap(run, world, mod, rfn):
            sample={"rule": "R-MEMR-SNAP", "read": rret, "from_list": fret})
     # from_list: indexes list_ by location.address, None/IndexError ->
     # MemoryLocationNotImplemented, bytes in location order
-    src = ast.unparse(ffn)
-    idx = any(isinstance(n, ast.Subscript) and unparse(n.value) ==
-              ffn.args.args[1].arg and unparse(n.slice) == "location.address"
-              for n in ast.walk(ffn))
+    lparam = ffn.args.args[1].arg
     loops = [n for n in ast.walk(ffn) if isinstance(n, ast.For)]
-    order = len(loops) == 1 and unparse(loops[0].iter) == "cls.locations"
+    order = len(loops) == 1 and unparse(loops[0].iter) == "cls.locations" \
+        and isinstance(loops[0].target, ast.Name)
+    lvar = loops[0].target.id if order else "location"
+    set_parents_local(ffn)
+    subs = [n for n in ast.walk(ffn) if isinstance(n, ast.Subscript) and
+            unparse(n.value) == lparam]
+    idx = bool(subs) and all(unparse(n.slice) == lvar + ".address"
+                             for n in subs)
     raises = [unparse(n.exc.func) for n in ast.walk(ffn) if isinstance(
         n, ast.Raise) and isinstance(n.exc, ast.Call)]
-    handlers = [unparse(h.type) for n in ast.walk(ffn) if isinstance(
-        n, ast.Try) for h in n.handlers if h.type is not None]
+    handlers = ["IndexError" for n in subs if _index_protected(
+        n, lparam, lvar + ".address")]
+    if len(handlers) != len(subs):
+        handlers = []
     none_test = any(isinstance(n, ast.Compare) and unparse(n).endswith(
         "is None") for n in ast.walk(ffn))
     run.ob("R-MEMR-SNAP", MV + ".from_list#extract",
@@ -283,7 +372,7 @@ def _check_read_all(run, world, mod, Q, fn, cfg, ys, sel):
                    v, [label(p, sel) if p else None for p in prev]),
                where(mod, y.node))
 
-    cet = cond_edge_transfer()
+    cet = answer_class_edges(cond_edge_transfer())
     reads0 = [y for y in ys if label(y, sel) == "ReadMemoryLocation"]
     read_loop_ids = set()
     read_loops = [n.ast for n in cfg.reachable if n.kind == "for" and any(
@@ -298,6 +387,16 @@ def _check_read_all(run, world, mod, Q, fn, cfg, ys, sel):
 
     def transfer(node, st):
         st = kill_conds_on_assign(node, st)
+        if node.kind == "stmt" and isinstance(node.ast, ast.Assign) and len(
+                node.ast.targets) == 1 and isinstance(
+                    node.ast.targets[0], ast.Name):
+            # constants bound to locals (the start address per bank kind)
+            nm_ = node.ast.targets[0].id
+            st = frozenset(f for f in st if not (
+                isinstance(f, tuple) and f[0] == "val" and f[1] == nm_))
+            v_ = node.ast.value
+            if isinstance(v_, ast.Constant) and type(v_.value) is int:
+                st = st | {("val", nm_, v_.value)}
         if node.kind == "stmt" and isinstance(node.ast, ast.Break) and \
                 node.id in read_loop_ids:
             st = st | {"early-break"}
@@ -325,6 +424,12 @@ def _check_read_all(run, world, mod, Q, fn, cfg, ys, sel):
         return st
     W = forward_worlds(cfg, transfer, cet)
     run.analysed["read_all worlds at exit"] = len(W.at(cfg.exit))
+
+    # a garbled answer anywhere in the bank ends in ResponseError (a missing
+    # one is data: the values located there are left out)
+    run.rule("R-RDISC", "")
+    _check_answer_classes(run, mod, Q, fn, cfg, ynode,
+                          {"garbled": "ResponseError"}, W=W)
 
     run.rule("R-WEN", "every WriteMemoryLocation(NoReply) is issued in "
              "write-enabled state on all paths")
@@ -380,16 +485,31 @@ def _check_read_all(run, world, mod, Q, fn, cfg, ys, sel):
                                 for y in ys if y is not la[0]),
            "LastAddress.read (which also sets DTR1 := bank) must come first",
            where(mod, fn))
-    # start address and the conditional DTR0 load
-    start_def = None
-    for n in cfg.reachable:
-        if n.kind == "stmt" and isinstance(n.ast, ast.Assign) and unparse(
-                n.ast.targets[0]) == "start_address":
-            start_def = unparse(n.ast.value)
+    # start address (the first argument of the read loop's range) per kind of
+    # bank: the worlds reaching the loop carry its constant and what was
+    # tested about self.address
+    rloops = [n for n in cfg.reachable if n.kind == "for" and any(
+        y.node.id in _loop_ids(n) for y in reads)]
+    start_name = None
+    if len(rloops) == 1:
+        it = rloops[0].ast.iter
+        if isinstance(it, ast.Call) and unparse(it.func) == "range" and len(
+                it.args) == 2 and isinstance(it.args[0], ast.Name):
+            start_name = it.args[0].id
+    got = set()
+    if start_name is not None:
+        for w in W.at(rloops[0]):
+            vals = {f[2] for f in w if isinstance(f, tuple) and f[0] == "val"
+                    and f[1] == start_name}
+            bank0 = {f[2] for f in w if isinstance(f, tuple) and f[0] ==
+                     "cond" and f[1] == "self.address == 0"}
+            got.add((tuple(sorted(vals)), tuple(sorted(bank0))))
     run.ob("R-MEMR-ORDER", Q + "#start-address",
-           start_def == "2 if self.address == 0 else 3",
-           "start_address is %s; bank 0 starts at 0x02, other banks at 0x03 "
-           "(0x02 is their lock byte)" % start_def, where(mod, fn))
+           got == {((2,), (True,)), ((3,), (False,))},
+           "the read loop starts at %s (start value, self.address == 0) on "
+           "the paths reaching it; bank 0 starts at 0x02, other banks at "
+           "0x03 (0x02 is their lock byte)" % sorted(got), where(mod, fn),
+           sample={"rule": "R-MEMR-ORDER", "start": sorted(got)})
     # unit DTR0 at every read == the location the loop is at (symbolic
     # tracking: 1 after LastAddress.read, +1 per read/write, DTR0 loads)
     D = Dtr0Sym(cfg, ys, lambda y: label(y, sel), after_from=lambda y: (
@@ -420,19 +540,29 @@ def _check_read_all(run, world, mod, Q, fn, cfg, ys, sel):
     loop = loops[0]
     lavar = unparse(la[0].node.ast.targets[0]) if la and isinstance(
         la[0].node.ast, ast.Assign) else None
-    run.ob("R-MEMR-SNAP", Q + "#loop-range", unparse(loop.ast.iter) ==
-           "range(start_address, %s + 1)" % lavar,
-           "the read loop iterates %s, expected range(start_address, %s + 1)"
+    it = loop.ast.iter
+    stop_ok = False
+    if isinstance(it, ast.Call) and unparse(it.func) == "range" and len(
+            it.args) == 2 and isinstance(it.args[1], ast.BinOp) and \
+            isinstance(it.args[1].op, ast.Add):
+        stop_ok = sorted((unparse(it.args[1].left),
+                          unparse(it.args[1].right))) == sorted(
+                              ("1", str(lavar)))
+    run.ob("R-MEMR-SNAP", Q + "#loop-range",
+           start_name is not None and stop_ok,
+           "the read loop iterates %s, expected range(<start>, %s + 1)"
            % (unparse(loop.ast.iter), lavar), where(mod, loop))
-    # list the bytes are appended to, its initial value
+    # list the bytes are appended to: start_name placeholders in front
     lst = None
     for n in cfg.reachable:
-        if n.kind == "stmt" and isinstance(n.ast, ast.Assign) and unparse(
-                n.ast.value) == "[None] * start_address":
-            lst = unparse(n.ast.targets[0])
+        if n.kind == "stmt" and isinstance(n.ast, ast.Assign) and len(
+                n.ast.targets) == 1 and isinstance(
+                    n.ast.targets[0], ast.Name) and _nones_count(
+                        n.ast.value) == start_name:
+            lst = n.ast.targets[0].id
     run.ob("R-MEMR-SNAP", Q + "#list-prefix", lst is not None,
-           "the raw list must start as [None] * start_address so that index "
-           "== location address", where(mod, fn))
+           "the raw list must start as %s placeholders (None) so that "
+           "index == location address" % start_name, where(mod, fn))
     if lst is None:
         return
     bad = _iteration_append_counts(loop, lst)
@@ -463,6 +593,65 @@ def _check_read_all(run, world, mod, Q, fn, cfg, ys, sel):
            "every value of self.values must be derived by "
            "memory_value.from_list(%s), dropping exactly "
            "MemoryLocationNotImplemented" % lst, where(mod, fn))
+
+
+def set_parents_local(fn):
+    for n in ast.walk(fn):
+        for ch in ast.iter_child_nodes(n):
+            ch._up = n
+
+
+def _index_protected(sub, lst, idx):
+    """The read lst[idx] cannot escape with IndexError: an enclosing try
+    catches it, or it is evaluated only where idx < len(lst) was tested."""
+    guards = ("%s < len(%s)" % (idx, lst), "len(%s) > %s" % (lst, idx))
+    nguards = ("%s >= len(%s)" % (idx, lst), "len(%s) <= %s" % (lst, idx))
+    n = sub
+    while getattr(n, "_up", None) is not None:
+        p = n._up
+        if isinstance(p, ast.Try) and n in p.body:
+            for h in p.handlers:
+                names = [unparse(t) for t in (
+                    h.type.elts if isinstance(h.type, ast.Tuple)
+                    else [h.type])] if h.type is not None else ["<bare>"]
+                if set(names) & {"IndexError", "LookupError", "Exception",
+                                 "<bare>"}:
+                    return True
+        if isinstance(p, ast.IfExp):
+            t = unparse(p.test)
+            if (n is p.body and t in guards) or (
+                    n is p.orelse and t in nguards):
+                return True
+        if isinstance(p, ast.If):
+            t = unparse(p.test)
+            if (n in p.body and t in guards) or (
+                    n in p.orelse and t in nguards):
+                return True
+        n = p
+    return False
+
+
+def _nones_count(v):
+    """Text of N when v builds a list of N None placeholders."""
+    def none(e):
+        return isinstance(e, ast.Constant) and e.value is None
+    if isinstance(v, ast.BinOp) and isinstance(v.op, ast.Mult):
+        for a, b in ((v.left, v.right), (v.right, v.left)):
+            if isinstance(a, ast.List) and len(a.elts) == 1 and none(
+                    a.elts[0]):
+                return unparse(b)
+    if isinstance(v, ast.ListComp) and none(v.elt) and len(
+            v.generators) == 1 and not v.generators[0].ifs and isinstance(
+                v.generators[0].iter, ast.Call) and unparse(
+                    v.generators[0].iter.func) == "range" and len(
+                        v.generators[0].iter.args) == 1:
+        return unparse(v.generators[0].iter.args[0])
+    if isinstance(v, ast.Call) and unparse(v.func) == "list" and len(
+            v.args) == 1 and isinstance(v.args[0], ast.Call) and unparse(
+                v.args[0].func).endswith("repeat") and len(
+                    v.args[0].args) == 2 and none(v.args[0].args[0]):
+        return unparse(v.args[0].args[1])
+    return None
 
 
 def _via_explicit_raise(W, ex, w):
